@@ -873,6 +873,28 @@ structure FlushBuilder where
   pb : FlushRequestB
   deriving DecidableEq, Repr, Inhabited
 
+/-! the reconciler's operation builders (`v4Operation` …): what `rib.ConcreteXXXProto` returns is
+opaque, the wrapper it is put in is not -/
+
+structure ConvTok where
+  Tag : Nat
+  deriving DecidableEq, Repr, Inhabited
+
+inductive ReconEntryX where
+  | Ipv4 (Ipv4 : Option ConvTok)
+  | Ipv6 (Ipv6 : Option ConvTok)
+  | Mpls (Mpls : Option ConvTok)
+  | NextHopGroup (NextHopGroup : Option ConvTok)
+  | NextHop (NextHop : Option ConvTok)
+  deriving DecidableEq, Repr, Inhabited
+
+structure ReconOpX where
+  Id : Nat
+  NetworkInstance : String
+  Op : Nat
+  Entry : Option ReconEntryX
+  deriving DecidableEq, Repr, Inhabited
+
 /-- outcome of one iteration of the Modify receive loop: the RPC ends with this error (`none` =
 clean end), or the loop goes on with the new first-message flag -/
 inductive LoopOut where
